@@ -42,11 +42,13 @@ From NV Require Import FatAlloc.Model FatAlloc.ProofsBase FatAlloc.ProofsGrow Fa
 Import ListNotations.
 Open Scope N_scope.'''
 
+H_DATA = H_ALLOC.replace('Import ListNotations.', 'From NV Require Import FatRead.Model FatData.Model FatData.Spec FatData.ProofsBase FatData.Proofs.\nImport ListNotations.')
+
 mkprops.emit('/verif/coq/Props/C04.v',
     'C04 -- Any history of mutations leaves a consistent volume with expected content. Statements only.\n'
     '   Stage T (table, byte level) and stage F (files, chain level) are theorems; directory and path operations\n'
     '   are covered by the correspondence / oracle (history_refines is therefore PARTIAL, see DESIGN.md).',
-    H_ALLOC,
+    H_DATA,
     [('C04_set_get_same', 'FatTable.Proofs.set_get_same', 'stage T: a stored FAT entry reads back, on bytes, for all widths'),
      ('C04_set_get_other', 'FatTable.Proofs.set_get_other', 'stage T: every other entry is untouched (FAT12 nibble-sharing neighbour included)'),
      ('C04_set_all_copies', 'FatTable.Proofs.set_all_copies', 'stage T: all FAT copies stay identical'),
@@ -56,6 +58,11 @@ mkprops.emit('/verif/coq/Props/C04.v',
      ('C04_close_wf', 'FatAlloc.Proofs.FA_close_wf', None),
      ('C04_unlink_frees_all', 'FatAlloc.Proofs.FA_unlink_frees_all', 'unlink frees exactly the chain (regression theorem for the chain-leak defect)'),
      ('C04_two_files_frame', 'FatAlloc.Proofs.FA_two_files_frame', None),
+     ('C04_data_step_refines', 'FatData.Proofs.FD_step_refines', 'stage D (bytes of one open file): every seek / write / truncate / read step on the clusters = the same step on a plain byte array (abs = first `size` bytes of the chain s clusters)'),
+     ('C04_data_run_refines', 'FatData.Proofs.FD_run_refines', 'stage D: ANY history of such steps on one handle, failed steps included, refines the byte-array specification and keeps the invariant'),
+     ('C04_data_run_refines_ok', 'FatData.Proofs.FD_run_refines_ok', None),
+     ('C04_holes_read_zero', 'FatData.Proofs.FD_holes_read_zero', 'a write past end of file: the hole reads as zeros whatever stale bytes the clusters held'),
+     ('C04_other_clusters_untouched', 'FatData.Proofs.FD_other_clusters_untouched', 'frame: clusters outside the file s chain keep their bytes, foreign FAT entries are unchanged'),
      ('C04_history_partial', 'FatAlloc.Proofs.FA_history', 'ANY sequence of file operations on any family of files sharing one table: every file stays well-formed, chains stay disjoint, foreign entries (directories, reserved) keep their value'),
     ], tail='''
 Theorem C04_source_facts :
@@ -68,7 +75,7 @@ Print Assumptions C04_source_facts.
 
 mkprops.emit('/verif/coq/Props/C10.v',
     'C10 -- Running out of space fails cleanly with ENOSPC and a consistent volume. Statements only.',
-    H_ALLOC,
+    H_DATA,
     [('C10_free_in_data_area', 'FatAlloc.Proofs.FA_free_in_data_area', 'only clusters that exist in the data area (and are free) are ever handed out'),
      ('C10_free_nodup', 'FatAlloc.Proofs.FA_free_nodup', 'one scan never yields a cluster twice (FAT32 hint wrap-around included)'),
      ('C10_free_complete', 'FatAlloc.Proofs.FA_free_complete', 'ENOSPC only when there really is no free cluster'),
@@ -77,6 +84,7 @@ mkprops.emit('/verif/coq/Props/C10.v',
      ('C10_alloc_one_enospc', 'FatAlloc.Proofs.FA_alloc_one_enospc', None),
      ('C10_write_enospc_wf', 'FatAlloc.Proofs.FA_write_wf', 'a write that runs out of space leaves the file well-formed, holding a prefix, size and chain in agreement'),
      ('C10_truncate_wf', 'FatAlloc.Proofs.FA_truncate_wf', None),
+     ('C10_data_step_enospc', 'FatData.Proofs.FD_step_enospc', 'at byte level: a step that fails does so with ENOSPC, keeps the invariant; a failed truncate changes nothing, a failed write keeps a strict prefix of the buffer'),
      ('C10_history_wf', 'FatAlloc.Proofs.FA_history', None),
     ], tail='''
 Theorem C10_source_facts :
